@@ -102,6 +102,7 @@ Hypothesis HS2 : S2_stmt norm.
 Hypothesis HS4 : S4_stmt norm.
 Hypothesis HA : A_ne_stmt.
 Hypothesis HDT : drive_total_stmt norm maxc.
+Hypothesis HPT : parse_total_stmt norm maxc.
 Hypothesis HST : sched_total_stmt norm maxc.
 Hypothesis HSI : sched_invariant_settle_stmt.
 
@@ -1331,6 +1332,87 @@ Lemma len_payload_le w : len (preamble_payload w) <= len (enc_rcds (preamble_rcd
 Proof.
   unfold preamble_payload, preamble_rcds. rewrite !enc_rcds_app, !len_app.
   pose proof (len_pieces_le (w_id w) (w_pieces w)). lia.
+Qed.
+
+(* ---- the byte-at-a-time schedule ---- *)
+Lemma run_sched_cons f p wire c l out :
+  run_sched norm maxc (S f) p wire (c :: l) out =
+    let n := N.min c (N.min (input_space p) (len wire)) in
+    match parse norm maxc p (take n wire) with
+    | PPanic _ => SPanic
+    | POk p' done o =>
+      if done then SOk p' true (drop n wire) (out ++ o)
+      else run_sched norm maxc f p' (drop n wire) l (out ++ o)
+    end.
+Proof. reflexivity. Qed.
+
+Lemma parse_step_from_header p w1 b out rest s1 o1 :
+  parser_ok p -> byte_ok b -> bytes_ok w1 -> len (w1 ++ [b]) < SIZE_LIMIT -> len (held p) < cap p ->
+  drive_all norm maxc Header w1 = DOk (held p) (st p) out ->
+  drive_all norm maxc Header (w1 ++ [b]) = DOk rest s1 o1 ->
+  (is_final s1 = true \/ len rest < cap p) ->
+  exists o2, o1 = out ++ o2 /\
+             parse norm maxc p [b] = POk (mkParser (cap p) rest s1) (is_final s1) o2 /\
+             parser_ok (mkParser (cap p) rest s1).
+Proof.
+  intros Hp Hb Hw1 Hsz Hsp Hd1 Hd2 Hfs.
+  assert (Hb1 : bytes_ok [b]) by (constructor; [exact Hb|constructor]).
+  assert (Hl1 : len [b] = 1) by reflexivity.
+  destruct (HPT p [b] Hp Hb1) as (p' & d & o & Hparse & Hok' & _).
+  { unfold input_space. rewrite Hl1. lia. }
+  rewrite HA in Hd2; try assumption; try exact I; [|discriminate]. rewrite Hd1 in Hd2.
+  unfold parse in Hparse |- *.
+  destruct (N.ltb_spec (cap p - len (held p)) (len [b])) as [H|_]; [rewrite Hl1 in H; lia|].
+  destruct (drive_all norm maxc (st p) (held p ++ [b])) as [r2 s2 o2| |]; try discriminate.
+  injection Hd2 as -> -> <-. exists o2. split; [reflexivity|].
+  destruct (len (held p ++ [b]) <? len rest); [discriminate|].
+  assert (E : negb (is_final s1) && (len rest =? cap p) = false).
+  { destruct Hfs as [Hf|Hl]; [rewrite Hf; reflexivity|].
+    destruct (N.eqb_spec (len rest) (cap p)); [lia|]. apply andb_false_r. }
+  rewrite E in *. injection Hparse as <- _ _. split; [reflexivity|exact Hok'].
+Qed.
+
+Lemma take1_cons {A} (b : A) l : take 1 (b :: l) = [b].
+Proof. reflexivity. Qed.
+Lemma drop1_cons {A} (b : A) l : drop 1 (b :: l) = l.
+Proof. reflexivity. Qed.
+
+Lemma ones_run W T c rq replies :
+  bytes_ok W -> len (W ++ T) < SIZE_LIMIT ->
+  (forall w1 w2, W = w1 ++ w2 -> w2 <> [] ->
+     exists rest s1 o1, drive_all norm maxc Header w1 = DOk rest s1 o1 /\ len rest < c /\ is_final s1 = false) ->
+  drive_all norm maxc Header W = DOk [] (Done rq) replies ->
+  forall w2 w1 p out fuel m, W = w1 ++ w2 -> w2 <> [] -> parser_ok p -> cap p = c ->
+    drive_all norm maxc Header w1 = DOk (held p) (st p) out ->
+    (length w2 < fuel)%nat -> (length w2 <= m)%nat ->
+    run_sched norm maxc fuel p (w2 ++ T) (repeat 1 m) out = SOk (mkParser c [] (Done rq)) true T replies.
+Proof.
+  intros HW Hsz F1 F2. induction w2 as [|b w2' IH]; intros w1 p out fuel m EW Hne Hp Hc Hd Hfu Hm; [congruence|].
+  destruct fuel as [|f]; [cbn in Hfu; lia|]. destruct m as [|m']; [cbn in Hm; lia|].
+  cbn [repeat length] in *. rewrite run_sched_cons. cbv zeta.
+  destruct (F1 w1 (b :: w2') EW Hne) as (rest0 & s0 & o0 & Hd0 & Hl0 & _).
+  rewrite Hd in Hd0. injection Hd0 as <- _ _.
+  assert (Hn : N.min 1 (N.min (input_space p) (len ((b :: w2') ++ T))) = 1).
+  { unfold input_space. rewrite len_app, len_cons. lia. }
+  rewrite Hn. cbn [app]. rewrite take1_cons, drop1_cons.
+  assert (HW' : bytes_ok w1 /\ bytes_ok (b :: w2')) by (apply bytes_ok_app; rewrite <- EW; exact HW).
+  destruct HW' as [Hw1 Hw2]. inversion Hw2 as [|? ? Hb Hw2']; subst.
+  assert (EW' : w1 ++ b :: w2' = (w1 ++ [b]) ++ w2') by (rewrite <- app_assoc; reflexivity).
+  assert (Hsz1 : len (w1 ++ [b]) < SIZE_LIMIT).
+  { rewrite EW', !len_app in Hsz. rewrite len_app. lia. }
+  destruct w2' as [|b2 w2''].
+  -     destruct (parse_step_from_header p w1 b out [] (Done rq) replies Hp Hb Hw1 Hsz1 ltac:(lia) Hd F2)
+      as (o2 & Eo & Hparse & _); [left; reflexivity|].
+    rewrite Hparse. cbn [is_final]. rewrite <- Eo. reflexivity.
+  - destruct (F1 (w1 ++ [b]) (b2 :: w2'') EW' ltac:(discriminate)) as (rest & s1 & o1 & Hd1 & Hl1 & Hf1).
+    destruct (parse_step_from_header p w1 b out rest s1 o1 Hp Hb Hw1 Hsz1 ltac:(lia) Hd Hd1)
+      as (o2 & Eo & Hparse & Hok'); [right; lia|].
+    rewrite Hparse, Hf1. 
+    apply (IH (w1 ++ [b]) (mkParser (cap p) rest s1) (out ++ o2) f m'); try assumption; try reflexivity.
+    + discriminate.
+    + cbn [held st]. rewrite <- Eo. exact Hd1.
+    + cbn [length] in *. lia.
+    + cbn [length] in *. lia.
 Qed.
 
 End Records.
